@@ -305,6 +305,28 @@ def run(cx):
         cs = lexical_conds(pm, t)
         r.check(helper == "__redu_list_assign" and ("needs_clone", True) in cs, f"_handle_assignment_ast/list-assignment-via[{helper}]", (pm, t), f"list re-assignment is emitted through `{helper}` under {sorted(cs)}: only the deep-copying __redu_list_assign keeps two names from sharing a buffer", sample=f"re-assignment via {helper}")
     r.check(len(tmpl) >= 1, "_handle_assignment_ast/list-assignment-template", (pm, ha), "list re-assignment template not found")
+    # the clone is taken on *every* path on which a declared list is re-assigned: the statement that installs the
+    # __redu_list_assign form is reached whenever needs_clone holds (no competing branch tested before it)
+    for t in tmpl:
+        st_ = next((a for a in pm.ancestors(t) if isinstance(a, ast.stmt)), None)
+        branch = next((a for a in pm.ancestors(t) if isinstance(a, ast.If) and st_ is not None and any(st_ is b or any(st_ is x for x in ast.walk(b)) for b in a.body)), None)
+        # `if needs_clone:` must be a top-of-chain test: not the elif of another condition
+        par = pm.parent.get(branch) if branch is not None else None
+        is_elif = isinstance(par, ast.If) and branch in par.orelse and len(par.orelse) == 1
+        r.check(branch is not None and norm(branch.test) == "needs_clone" and not is_elif, "_handle_assignment_ast/clone-on-every-reassignment-path", (pm, t), f"the deep copy is installed under `{norm(branch.test) if branch is not None else '?'}`{' as the elif of `' + norm(par.test) + '`' if is_elif else ''}: some re-assignment of a declared list bypasses __redu_list_assign")
+    # who may free: buffers are released only inside the helper templates (and the record's destructor, if any); no
+    # statement template of the parser or emitter spells delete[] itself
+    n_free = 0
+    for m_ in (pm, em):
+        for n_ in ast.walk(m_.tree):
+            if isinstance(n_, ast.Constant) and isinstance(n_.value, str) and "delete[]" in n_.value:
+                owner = next((k for k, v in m_.consts.items() if v is n_ or any(x is n_ for x in ast.walk(v))), None)
+                if owner in ("LIST_HELPER_SNIPPET",):
+                    n_free += 1
+                    continue
+                r.fail(f"{m_.rel.split('/')[-1]}/delete[]-outside-the-list-helpers", (m_, n_), f"a statement template spells `delete[]` itself (`{n_.value.strip()[:60]}`): buffers are owned by the list record and released only by its helpers - a hand-written free runs before the right-hand side that may still read the buffer")
+    if n_free < 1:
+        raise AnalysisError("the list helper snippet no longer frees anything: ownership rules need re-confirmation")
     # first declaration `b = a`
     aliases_checked = any(isinstance(n, ast.If) and "isinstance(value, ast.Name)" in norm(n.test) and "_is_list_type" in norm(n.test) for n in walk_local(ha))
     r.check(aliases_checked, "_handle_assignment_ast/list-alias-on-first-declaration", (pm, ha), "`b = a` (first assignment of b from a list variable) declares `__redu_list<T> b = a;`, a shallow struct copy: both names own the same buffer (use after free after `a.append(..)`, double free never happens only because nothing is ever freed)")
